@@ -157,7 +157,7 @@ impl Lexer {
     }
 
     pub fn new_from_string(s: &str, entire_span: Span) -> Self {
-        let is_expanded = s.len() as u64 > entire_span.len();
+        let is_expanded = s.len() as u64 != entire_span.len();
         let buf = TokenLexer::new(s.chars().peekable()).collect();
 
         Self::new(buf, entire_span, is_expanded)
